@@ -22,7 +22,8 @@ pub open spec fn bh_bytes(h: &BlockHandle) -> Seq<u8> { var_enc(h.offset) + var_
 //@sig
     ensures
         // decoding what From<&BlockHandle> wrote gives the handle back (with any trailing bytes)
-        forall|h: BlockHandle, rest: Seq<u8>| buf@ == #[trigger] (bh_bytes(&h) + rest) ==> (r matches Ok(p) && p.0 == h), // [handle-roundtrip]
+        forall|h: BlockHandle, rest: Seq<u8>| buf@ == #[trigger] (bh_bytes(&h) + rest) ==> (r matches Ok(p) && p.0 == h && p.1 == bh_bytes(&h).len()), // [handle-roundtrip]
+        r matches Ok(p) ==> p.1 <= buf@.len(),
 //@body-start
         broadcast use group_varint;
         proof {
